@@ -226,3 +226,24 @@ seed('S-c13e', 'C13', 'char_range_gen defines ascii_x as is_ascii() && is_x() fo
 seed('S-c14e', 'C14', 'lexgen_util new_from_iter_with_state sets __done from whether the iterator is empty',
      'an iterator lexer over the empty input and an Init `$` rule', ['C14'], [],
      'first run inconclusive (the reference constructor had two paths); the comparison now takes a constructor that does not branch on its input as the reference')
+# ---- round 11
+seed('S-c01f', 'C01', 'codegen.rs generate_state_char_arms: the arms for literal characters that lead to another state are emitted after the range arms',
+     'a state with a range leading directly to an accept and a literal character inside that range that continues a longer rule', ['C01'], [], '5 roles')
+seed('S-c02f', 'C02', 'ast.rs parse_regex_2 collapses directly nested repetition operators; (r?)+ is rewritten to r+',
+     '`+` applied directly to a `?` regex and an input that needs zero occurrences', ['C02'], [], 'nested repetition family')
+seed('S-c06g', 'C06', 'the iterator cloned for the right-context test is advanced by the test and then stored as the saved match (location saved is the lexeme end)',
+     'a right context that consumes characters, on an accepting state with outgoing transitions, and a rewind to that match with more input following', ['C06'], [],
+     'first run inconclusive (`impl Iterator for &mut I` forwarding had no model); added')
+seed('S-c08f', 'C08', 'lexgen_util backtrack(): in the no-saved-match arm `__done |= self.__iter.peek().is_none()`',
+     'an InvalidToken through backtrack() on the last character of the input with an Init `$` rule still to come', ['C08'], [],
+     'first run missed it: no end-of-input rules next to the failing shape in the C08 family, and a wrong done flag after an error was attributed to C05 only. Added; a wrong done flag after an error is also a `recover` disagreement')
+seed('S-c09g', 'C09', 'codegen.rs fail closure: after a successful backtrack() whose action continues, the generated code does `return self.next()` instead of looping',
+     'thousands of consecutive lexemes that are skipped through backtracking: stack overflow', ['C09'], [],
+     'first run missed it (tokens are identical; the crash needs inputs far beyond the per-call bound). Added: the executor records the recursion depth of next(); a call in which next() calls itself is reported as a progress disagreement and confirmed natively by long runs (400000 characters) built from the lexemes the witness skips')
+seed('S-c11f', 'C11', 'range_map.rs remove_ranges: the arm where the overlap ends at the right end of the old range also advances the removed-range iterator',
+     'a removed range that starts inside one piece and ends inside a later piece', ['C11'], [], 'inductive step on remove_ranges and the class-expression lexers')
+seed('S-c15e', 'C15', 'lexgen_util: Peekable replaced by a hand-written Lookahead whose manual Clone drops the parked character',
+     'a clone taken right after an action that called peek()', ['C15'], [],
+     'first run inconclusive (Option::get_or_insert_with); summary added; the structural comparison of clone and original reports the lost character, replayed natively')
+seed('S-c18e', 'C18', 'char_range_gen: the scan runs to char::MAX + 1 as a sentinel and the flush after the loop is removed (the sentinel is skipped by the surrogate arm)',
+     'a predicate true at U+10FFFF: its last range is dropped', ['C18'], [], 'exit obligation of the cut-point harness')
